@@ -125,7 +125,8 @@ def run_impl(src: str, runner: str, bindings: Dict[str, Any], package: Optional[
         stage = "program"
         prog = env.program(ast, functions=functions)
         stage = "evaluate"
-        prog.evaluate(bindings)
+        with _deadline(EVAL_TIMEOUT_S):
+            prog.evaluate(bindings)
         return "ok"
     except ev.CELEvalError as ex:
         if stage != "evaluate":
@@ -137,8 +138,40 @@ def run_impl(src: str, runner: str, bindings: Dict[str, Any], package: Optional[
         return "err"
     except RecursionError:
         return f"EXC RecursionError @{stage}"
+    except EvaluationTimeout:
+        return f"EXC EvaluationTimeout(>{EVAL_TIMEOUT_S}s) @{stage}"
+    except MemoryError:
+        return f"EXC MemoryError @{stage}"
     except Exception as ex:  # noqa
         return f"EXC {type(ex).__name__} @{stage}"
+
+
+EVAL_TIMEOUT_S = 30
+
+
+class EvaluationTimeout(BaseException):
+    """an evaluation of an expression within CEL's size limits did not end (normal ones take milliseconds)"""
+
+
+class _deadline:
+    def __init__(self, seconds: int):
+        self.s = seconds
+
+    def __enter__(self):
+        import signal, threading
+        self.on = threading.current_thread() is threading.main_thread()
+        if self.on:
+            def fire(signum, frame):
+                raise EvaluationTimeout()
+            self.old = signal.signal(signal.SIGALRM, fire)
+            signal.alarm(self.s)
+
+    def __exit__(self, *a):
+        import signal
+        if self.on:
+            signal.alarm(0)
+            signal.signal(signal.SIGALRM, self.old)
+        return False
 
 
 def outcome(R: Rt, thunk) -> str:
@@ -430,6 +463,14 @@ def limit_exprs(rng: random.Random) -> List[str]:
     R, T, N = LIM_REPEAT, LIM_TERNARY, LIM_NEST
     out = []
     out.append(" || ".join(["false"] * (R - 1) + [bad]))
+    # every operand erroneous (the error of one step must not be quoted into the next: size stays linear)
+    out.append(" || ".join([f"({bad})"] * R))
+    out.append(" && ".join(["nosuch"] * R))
+    out.append("[" + ", ".join(["0"] * R) + "].all(x, 1/x > 0)")
+    out.append("[" + ", ".join(["0"] * R) + "].exists(x, 1/x > 0)")
+    out.append("'" + "a" * R + "'.exists(x, x.contains([1]))")
+    out.append("[" + ", ".join(["0"] * R) + "].map(x, 1/x)")
+    out.append("[" + ", ".join(["0"] * R) + "].exists_one(x, 1/x > 0)")
     out.append(" && ".join(["true"] * (R - 1) + [bad]))
     out.append("size([" + ", ".join(["1"] * (R - 1) + [bad]) + "])")
     out.append("[" + ", ".join(["1"] * (R - 1) + [bad]) + "]")
@@ -767,8 +808,8 @@ class C04(Prop):
             f = find_func(evcls.body, s.method)
             try:
                 _, tries = _enclosing(f, s.expr, s.under, s.which)
-            except Exception as ex:
-                out.append(dict(name=f"args0:{s.name}", ok=False, detail=str(ex), case={}))
+            except Exception:
+                # the site can no longer be located: reported by the translator status (broken obligation), not here
                 continue
             uses_args0 = any("ex.args[0]" in ast.unparse(h) for t in tries for h in t.handlers)
             empties = sorted({c.__name__ for e in d["measured"][s.name].values() for c in e["emptyargs"]})
